@@ -5,6 +5,7 @@ import (
 	"fmt"
 	"regexp"
 	"slices"
+	"sync"
 )
 
 type ImportFunc func(*regexp.Regexp, string) (*BMNumber, error)
@@ -33,6 +34,10 @@ type BMNumber struct {
 
 var AllTypes []BMNumberType
 var AllMatchers map[string]ImportFunc
+
+// registryMu guards AllTypes and AllMatchers: dynamical types are registered on first use, possibly
+// by concurrent callers (e.g. concurrent simulations showing values of the same new type)
+var registryMu sync.RWMutex
 var AllDynamicalTypes []DynamicalType
 
 func init() {
@@ -67,12 +72,16 @@ func init() {
 }
 
 func ListTypes() {
+	registryMu.RLock()
+	defer registryMu.RUnlock()
 	for _, t := range AllTypes {
 		fmt.Println(t.GetName())
 	}
 }
 
 func GetType(name string) BMNumberType {
+	registryMu.RLock()
+	defer registryMu.RUnlock()
 	for _, t := range AllTypes {
 		if t.GetName() == name {
 			return t
